@@ -14,6 +14,7 @@ a reference method, the image; hash-irrelevant: instance location, a component n
 indices, modification times)."""
 import copy
 import hashlib
+import re
 import json
 import os
 import shutil
@@ -27,10 +28,11 @@ COQ_DIR = 'Memo'
 ASSUMPTIONS = [
     'md5 is a Section variable of the Coq development; for the correspondence it is instantiated by the table of '
     '(input, hashlib.md5 digest) pairs observed during the run; "exactly when" is modulo md5 collisions',
-    'argument strings are modelled as literal chunks and reference tokens; the character-level regular-expression '
-    'replacement (\\b<reference>\\b, longest spelling first) is exercised only on blank-delimited references',
-    'no custom embeddingFunction (user-provided JavaScript fuzzy hash); no loop references; references to absolute paths '
-    'and application dependencies are not generated',
+    'the rewriting of the argument string is modelled at character level (re.sub with \\b at both ends, Memo.Model.resub); '
+    'two helpers of the code are oracles of that model, evaluated by the run on the real code: the strings '
+    'FlowIR.discover_reference_strings finds in the arguments and the order in which the references are visited',
+    'no custom embeddingFunction (user-provided JavaScript fuzzy hash); no loop references; references to '
+    'application dependencies are not generated',
     'file contents are short ASCII texts; files are read completely by md5_of_file',
 ]
 HEADER = 'Require Import V.Lib.JTree V.Memo.Model.\nOpen Scope string_scope.'
@@ -42,13 +44,16 @@ KW_EXES = ['executablefoo', 'filesort', 'foo']
 KW_WORDS = ['-x executable', 'executable', '-x ', 'xfiles', 'commandarguments', 'image']
 NAMES = ['step', 'step7', 'gen', 'gen2', 'A', 'B1', 'merge', 'merge10', 'w', 'w3', 'x42', 'prep']
 IMAGES = ['img:1', 'registry/img:2', 'img']
+ABS = {'dir': '/ABSDIR'}      # directory of the absolute-path files of the current Driver; '/ABSDIR' in canonical forms
 CONTENTS = ['hello', 'dd', 'OUT', '1 2 3', 'alpha beta', '', 'x', 'OUT2', 'longer content of a file 0123456789']
 
 
 # ------------------------------------------------------------------ worlds
-def ref_string(w, r, spelling):
+def ref_string(w, r, spelling, canon=False):
     """the reference as written in the FlowIR of the consumer"""
-    if r['kind'] == 'input':
+    if r['kind'] == 'abs':
+        base = '%s/%s' % ('/ABSDIR' if canon else ABS['dir'], r['path'])
+    elif r['kind'] == 'input':
         base = 'input/%s' % r['path']
     elif r['kind'] in ('data', 'datadir'):
         base = 'data/%s' % r['path']
@@ -75,6 +80,9 @@ def flowir_of(w):
             if isinstance(t, int):
                 r = c['refs'][t]
                 args.append(ref_string(w, r, ref_spelling(w, c, r)))
+            elif isinstance(t, (list, tuple)):      # ['glue', reference index, suffix]: the reference directly followed by text
+                r = c['refs'][t[1]]
+                args.append(ref_string(w, r, ref_spelling(w, c, r)) + t[2])
             else:
                 args.append(t)
         d = {'name': c['name'], 'stage': c['stage'],
@@ -96,7 +104,7 @@ def flowir_of(w):
     return json.dumps({'components': comps})      # JSON is YAML
 
 
-def gen_world(rng, kw=False):
+def gen_world(rng, kw=False, boundary=False):
     n = rng.randint(2, 6)
     names = rng.sample(NAMES, n)
     nst = rng.choice([1, 1, 2, 3])
@@ -104,7 +112,7 @@ def gen_world(rng, kw=False):
     # stage indices must be contiguous from 0
     remap = {s: i for i, s in enumerate(sorted(set(stages)))}
     stages = [remap[s] for s in stages]
-    w = {'comps': [], 'inputs': {}, 'data': {}, 'datadirs': [], 'out': {}}
+    w = {'comps': [], 'inputs': {}, 'data': {}, 'datadirs': [], 'out': {}, 'abs': {}}
     for i in range(rng.randint(1, 3)):
         w['inputs']['in%d.txt' % i] = [rng.choice(CONTENTS), 'file']
     for i in range(rng.randint(1, 3)):
@@ -152,6 +160,14 @@ def gen_world(rng, kw=False):
         for j in usable:
             if j not in c['args']:      # a :ref/:output reference that is not used on the command line is rejected
                 c['args'].insert(rng.randint(0, len(c['args'])), j)
+        # boundary cases of the \b...\b replacement (rare: they fall in the class of finding F16c)
+        if boundary and rng.random() < 0.5:
+            name = rng.choice(['a.txt', 'b.txt'])
+            w['abs'].setdefault(name, [rng.choice(CONTENTS), 'file'])
+            c['refs'].append({'kind': 'abs', 'path': name, 'method': 'ref'})
+            c['args'].insert(rng.randint(0, len(c['args'])), len(c['refs']) - 1)
+        elif boundary and usable:
+            c['args'].insert(rng.randint(0, len(c['args'])), ['glue', rng.choice(usable), rng.choice(['X', '_1', '2'])])
     # states of the files made by producers
     for i, c in enumerate(w['comps']):
         for r in c['refs']:
@@ -172,7 +188,8 @@ def gen_world(rng, kw=False):
 
 def chain_world(rng, length):
     """P0 -> P1 -> ... : each consumes out.txt of the previous one (fuzzy hash propagation)"""
-    w = {'comps': [], 'inputs': {'in0.txt': ['hello', 'file']}, 'data': {'d0.txt': ['dd', 'file']}, 'datadirs': ['sub0'], 'out': {}}
+    w = {'comps': [], 'inputs': {'in0.txt': ['hello', 'file']}, 'data': {'d0.txt': ['dd', 'file']}, 'datadirs': ['sub0'], 'out': {},
+         'abs': {}}
     names = rng.sample(NAMES, length + 1)
     for i in range(length + 1):
         c = {'name': names[i], 'stage': 0 if i < 2 else 1, 'exe': rng.choice(EXES), 'refs': [], 'args': [rng.choice(WORDS)],
@@ -225,7 +242,7 @@ def variant(rng, w, kind):
         c['exe'] = rng.choice([e for e in EXES if e != c['exe']])
         return v, {'aspect': 'exe', 'comp': k}
     if kind == 'arg':
-        lits = [j for j, t in enumerate(c['args']) if not isinstance(t, int)]
+        lits = [j for j, t in enumerate(c['args']) if isinstance(t, str)]
         if not lits:
             c['args'].append('new-arg')
         else:
@@ -285,7 +302,11 @@ def variant(rng, w, kind):
         v['out'][key][0] = v['out'][key][0] + '+changed'
         users = [i for i, cc in enumerate(v['comps'])
                  if any(q['kind'] == 'prodfile' and '%d/%s' % (q['prod'], q['path']) == key for q in cc['refs'])]
-        return v, {'aspect': 'prodcontent', 'comp': k, 'users': users}
+        # components that take the whole folder of that producer through :copy / :link consume the file too
+        folder_users = [i for i, cc in enumerate(v['comps'])
+                        if i not in users and any(q['kind'] == 'proddir' and q['prod'] == r['prod'] and q['method'] in ('copy', 'link')
+                                                  for q in cc['refs'])]
+        return v, {'aspect': 'prodcontent', 'comp': k, 'users': users, 'folder_users': folder_users}
     if kind == 'missing':
         cand = [r for r in c['refs'] if r['kind'] in ('input', 'data', 'prodfile')]
         if not cand:
@@ -353,6 +374,9 @@ class Driver(object):
         import experiment.model.storage as S
         self.G, self.D, self.S = G, D, S
         self.tmp = tempfile.mkdtemp(prefix='verif_c16_')
+        self.absdir = os.path.join(self.tmp, 'abs')
+        os.makedirs(self.absdir)
+        ABS['dir'] = self.absdir
         self.rec = Recorder()
         self._orig_hashlib = G.hashlib
         G.hashlib = self.rec
@@ -360,6 +384,7 @@ class Driver(object):
 
     def close(self):
         self.G.hashlib = self._orig_hashlib
+        ABS['dir'] = '/ABSDIR'
         try:
             os.chdir(self.cwd)
         except Exception:
@@ -373,6 +398,25 @@ class Driver(object):
         if h is None:
             return None, None
         return self.rec.last.buf.decode('utf-8'), h
+
+    def oracles(self, spec, w, c):
+        """what the character-level model takes as given: the argument string the code starts from, the strings
+        discover_reference_strings finds in it, and the order in which the code visits the references of c"""
+        from experiment.model.frontends.flowir import FlowIR
+        args = spec.commandDetails.get('arguments', '')
+        comp_ids = spec.workflowGraph.configuration.get_flowir_concrete(False).get_component_identifiers(False, True)
+        found = {}
+        FlowIR.discover_reference_strings(args, spec.identification.stageIndex, comp_ids, found)
+        drefs = sorted(spec.dataReferences, key=lambda d: len(d.stringRepresentation), reverse=True)
+        names = [set([ref_string(w, r, 'abs'), ref_string(w, r, 'rel'), ref_string(w, r, ref_spelling(w, c, r))]) for r in c['refs']]
+        order = []
+        for d in drefs:
+            cands = [j for j, ss in enumerate(names) if d.absoluteReference in ss or d.relativeReference in ss]
+            if len(cands) != 1:
+                raise ValueError('oracle: data reference %s of the implementation matches %d references of the world' % (
+                    d.absoluteReference, len(cands)))
+            order.append(cands[0])
+        return {'args': canon_path(args), 'disc': sorted(canon_path(k) for k in found), 'order': order}
 
     def observe(self, w):
         """instantiate the world, set the file states, return per component (in world order) a dict
@@ -390,6 +434,11 @@ class Driver(object):
             open(os.path.join(pkg, 'data', dname, 'member.txt'), 'w').write('member')
         indir = os.path.join(loc, 'inputs')
         os.makedirs(indir)
+        for name in os.listdir(self.absdir):
+            os.remove(os.path.join(self.absdir, name))
+        for name, (content, st) in w.get('abs', {}).items():
+            if st == 'file':
+                open(os.path.join(self.absdir, name), 'w').write(content)
         inputs = []
         for name, (content, _st) in sorted(w['inputs'].items()):
             open(os.path.join(indir, name), 'w').write(content)
@@ -427,18 +476,22 @@ class Driver(object):
                     labels = ['stage%d.%s%d' % (c['stage'], c['name'], i) for i in range(c['replicate'])]
                 for lab in labels:
                     spec = nodes[lab]['componentSpecification']
-                    o = {}
+                    o = {'oracle': self.oracles(spec, w, c)}
                     for flav, fz in (('strong', False), ('fuzzy', True)):
                         info = spec.memoization_info_fuzzy if fz else spec.memoization_info
                         h = spec.memoization_hash_fuzzy if fz else spec.memoization_hash
                         buf, h2 = self.to_hash(info)
                         if h2 != h:
                             buf = 'HASH-NOT-MD5-OF-BUFFER:%s' % buf
-                        o[flav] = (canon_info(info), buf, h)
+                        o[flav] = (canon_info(info), canon_path(buf), h)
                     res.append(o)
             return res
         finally:
             shutil.rmtree(loc, ignore_errors=True)
+
+
+def canon_path(s):
+    return s.replace(ABS['dir'], '/ABSDIR') if isinstance(s, str) and ABS['dir'] != '/ABSDIR' else s
 
 
 def canon_info(info):
@@ -449,7 +502,7 @@ def canon_info(info):
     b = info['backend']
     if sorted(b) not in ([], ['image']) or sorted(info['command']) != ['arguments', 'executable']:
         return {'malformed': repr(info)[:200]}
-    return {'files': sorted(info['files']), 'exe': info['command']['executable'], 'args': info['command']['arguments'],
+    return {'files': sorted(info['files']), 'exe': info['command']['executable'], 'args': canon_path(info['command']['arguments']),
             'image': b.get('image')}
 
 
@@ -457,6 +510,8 @@ def canon_info(info):
 def state_of(w, r):
     if r['kind'] == 'input':
         c, st = w['inputs'][r['path']]
+    elif r['kind'] == 'abs':
+        c, st = w['abs'][r['path']]
     elif r['kind'] == 'data':
         c, st = w['data'][r['path']]
     elif r['kind'] in ('datadir', 'proddir'):
@@ -486,19 +541,30 @@ def model_comps(w):
                 p = w['comps'][r['prod']]
                 loc = 'stages/stage%d/%s/%s' % (p['stage'], p['name'], r['path'])
                 prod = '(Some %s)' % cnat(pos[r['prod']])
+            elif r['kind'] == 'abs':
+                loc = '/ABSDIR/' + r['path']
+                prod = 'None'
             else:
                 loc = ('input/' if r['kind'] == 'input' else 'data/') + r['path']
                 prod = 'None'
             refs.append('{| d_key := %s; d_text := %s; d_location := %s; d_mtime := %s; d_prod := %s; d_fileref := %s; '
                         'd_method := %s; d_state := %s |}' % (
-                            cstr(ref_string(w, r, 'abs')), cstr(ref_string(w, r, ref_spelling(w, c, r))), cstr(loc),
+                            cstr(ref_string(w, r, 'abs', True)), cstr(ref_string(w, r, ref_spelling(w, c, r), True)), cstr(loc),
                             cZ(w.get('mtime') or 0), prod, cstr(r['path'] if r['kind'] == 'prodfile' else ''),
                             cstr(r['method']), st))
         toks = []
         for j, t in enumerate(c['args']):
             if j:
                 toks.append('TLit " "')
-            toks.append('TRef %s' % cnat(t) if isinstance(t, int) else 'TLit %s' % cstr(t))
+            if isinstance(t, int):
+                toks.append('TRef %s' % cnat(t))
+            elif isinstance(t, (list, tuple)):
+                toks += ['TRef %s' % cnat(t[1]), 'TLit %s' % cstr(t[2])]
+            else:       # one token per blank-separated word
+                for n, word in enumerate(t.split(' ')):
+                    if n:
+                        toks.append('TLit " "')
+                    toks.append('TLit %s' % cstr(word))
         b = c['backend']
         be = 'BLocal' if b[0] == 'local' else ('BKube %s' % cstr(b[1]) if b[0] == 'kubernetes' else 'BLsf %s' % cstr(b[1] or ''))
         for k in range(c.get('replicate') or 1):
@@ -518,8 +584,28 @@ def coq_obs(o):
     return '(%s, %s, %s)' % (ci, copt(buf, cstr), copt(h, cstr))
 
 
+def boundary_world(w):
+    """some reference is written where \\b does not hold at both of its ends (class of F16c)"""
+    return any(boundary_refs(w, c) for c in w['comps'])
+
+
+def boundary_refs(w, c):
+    """indices of the references of c that the arguments use at a place without word boundaries: the spelling starts
+    with a non-word character (absolute path), or is directly followed by a word character"""
+    out = set()
+    for t in c['args']:
+        if isinstance(t, int) and c['refs'][t]['kind'] == 'abs':
+            out.add(t)
+        if isinstance(t, (list, tuple)) and re.match(r'\w', t[2]):
+            out.add(t[1])
+    return out
+
+
 def coq_case(w, obs):
     comps, contents = model_comps(w)
+    if len(comps) != len(obs):
+        raise ValueError('observations and model components differ in number')
+    comps = ['(%s, (%s, %s))' % (cm, clist(o['oracle']['disc'], cstr), clist(o['oracle']['order'], cnat)) for cm, o in zip(comps, obs)]
     tbl = {}
     for c in contents:
         tbl[c] = hashlib.md5(c.encode('utf-8')).hexdigest()
@@ -527,7 +613,9 @@ def coq_case(w, obs):
         for flav in ('strong', 'fuzzy'):
             buf = o[flav][1]
             if buf is not None:
-                tbl[buf] = hashlib.md5(buf.encode('utf-8')).hexdigest()
+                # a buffer that names the scratch directory of the absolute-path files was canonicalised: its digest is
+                # the one observed (observe() checked that it is the md5 of the real buffer)
+                tbl[buf] = o[flav][2] if '/ABSDIR' in buf else hashlib.md5(buf.encode('utf-8')).hexdigest()
     t = clist(['(%s, %s)' % (cstr(k), cstr(v)) for k, v in sorted(tbl.items())])
     return '(%s, %s, (%s, %s))' % (t, clist(comps), clist([coq_obs(o['strong']) for o in obs]),
                                    clist([coq_obs(o['fuzzy']) for o in obs]))
@@ -535,7 +623,7 @@ def coq_case(w, obs):
 
 # ------------------------------------------------------------------ the property on the implementation's outputs
 def declared_fields(c):
-    f = [c['exe']] + [t for t in c['args'] if not isinstance(t, int)]
+    f = [c['exe']] + [t if isinstance(t, str) else t[2] for t in c['args'] if not isinstance(t, int)]
     if len(c['backend']) > 1 and c['backend'][1]:
         f.append(c['backend'][1])
     return f
@@ -576,6 +664,25 @@ def check_world(ctx, w, obs, tag):
         if info is None and not has_missing(w, c) and not c['refs']:
             ctx.fail({'world': w, 'comp': i, 'tag': tag},
                      'a component without references gets no memoization hash (blueprint lookup failed)', [])
+        # every reference on the command line is replaced by a hash of what it refers to (a folder of the package has
+        # none and stays as written)
+        bref = boundary_refs(w, c)
+        for flav in ('strong', 'fuzzy'):
+            info = obs[i][flav][0]
+            if info is None or 'args' not in info:
+                continue
+            for t in c['args']:
+                j = t if isinstance(t, int) else (t[1] if isinstance(t, (list, tuple)) else None)
+                if j is None or c['refs'][j]['kind'] == 'datadir':
+                    continue
+                r = c['refs'][j]
+                if ref_string(w, r, ref_spelling(w, c, r), True) in info['args']:
+                    ctx.fail({'world': w, 'comp': i, 'flavour': flav, 'tag': tag, 'reference': ref_string(w, r, ref_spelling(w, c, r), True),
+                              'arguments': info['args']},
+                             'a reference on the command line is not replaced by the hash of what it refers to: the %s hash depends on the '
+                             'spelling (path, producer name) instead of the contents' % flav,
+                             ['reference_not_at_word_boundaries'] if j in bref else [])
+                    break
 
 
 def pairs_sound(ctx, entries):
@@ -610,10 +717,15 @@ def check_variant(ctx, base, bobs, v, vobs, d):
     case = {'base': base, 'variant': v, 'aspect': d}
     if aspect in IRRELEVANT:
         for i in range(n):
+            # F16c: an unreplaced reference spells the stage and the name of its producer; consumers inherit the hash
+            tainted = aspect in ('rename', 'stage') and any(
+                any(base['comps'][x]['refs'][j]['kind'] in ('prodfile', 'proddir') for j in boundary_refs(base, base['comps'][x]))
+                and (x == i or depends_on(base, i, x)) for x in range(n))
             for flav in ('strong', 'fuzzy'):
                 if bobs[i][flav][2] != vobs[i][flav][2]:
                     ctx.fail(dict(case, comp=i, flavour=flav),
-                             'the %s memoization hash depends on a hash-irrelevant aspect (%s)' % (flav, aspect), [])
+                             'the %s memoization hash depends on a hash-irrelevant aspect (%s)' % (flav, aspect),
+                             ['reference_not_at_word_boundaries'] if tainted else [])
         return
     if aspect == 'missing':
         return      # covered by check_world on the variant
@@ -632,6 +744,10 @@ def check_variant(ctx, base, bobs, v, vobs, d):
                 if flav == 'strong' and i in d['users'] and hb == hv:
                     ctx.fail(dict(case, comp=i, flavour=flav),
                              'the strong hash does not change with the contents of a consumed file', [])
+                if flav == 'strong' and i in d.get('folder_users', []) and hb == hv:
+                    ctx.fail(dict(case, comp=i, flavour=flav),
+                             'the strong hash does not change with the contents of a file consumed through a copied/linked folder of '
+                             'its producer', ['producer_folder_copied_or_linked'])
                 continue
             changed_here = (i == k) if aspect != 'content' else (i in d['users'])
             if changed_here and hb == hv:
@@ -671,6 +787,53 @@ def corpus_worlds():
         {'name': 'step', 'stage': 0, 'exe': 'cat', 'refs': [], 'args': ['zzz'], 'backend': loc},
         {'name': 'step7', 'stage': 0, 'exe': 'echo', 'refs': [], 'args': ['b'], 'backend': loc, 'replicate': 2}])
     return [('F16', f16), ('F16b', f16b), ('F16b-replicas', f16c)]
+
+
+def corpus_families():
+    """witnesses of F16c (references where \\b does not hold) and F16d (producer folder through :copy)"""
+    loc = ('local',)
+    base = {'inputs': {'in0.txt': ['hello', 'file']}, 'data': {'d0.txt': ['dd', 'file']}, 'datadirs': ['sub0'], 'out': {}, 'abs': {}}
+    fabs = dict(copy.deepcopy(base), abs={'a.txt': ['AAA', 'file'], 'b.txt': ['AAA', 'file']}, comps=[
+        {'name': 'A', 'stage': 0, 'exe': 'cat', 'refs': [{'kind': 'abs', 'path': 'a.txt', 'method': 'ref'}], 'args': ['-n', 0], 'backend': loc},
+        {'name': 'B1', 'stage': 0, 'exe': 'cat', 'refs': [{'kind': 'abs', 'path': 'b.txt', 'method': 'ref'}], 'args': ['-n', 0], 'backend': loc}])
+    fglue = dict(copy.deepcopy(base), out={'0/out.txt': ['OUT', 'file']}, comps=[
+        {'name': 'gen', 'stage': 0, 'exe': 'echo', 'refs': [], 'args': ['x'], 'backend': loc},
+        {'name': 'step', 'stage': 0, 'exe': 'cat',
+         'refs': [{'kind': 'prodfile', 'prod': 0, 'path': 'out.txt', 'method': 'ref', 'spelling': 'rel'},
+                  {'kind': 'input', 'path': 'in0.txt', 'method': 'ref'}],
+         'args': [['glue', 0, '_1'], 0, ['glue', 1, 'X'], 1, ['glue', 1, '.bak']], 'backend': loc}])
+    fcopy = dict(copy.deepcopy(base), out={'0/out.txt': ['OUT', 'file']}, comps=[
+        {'name': 'gen', 'stage': 0, 'exe': 'echo', 'refs': [], 'args': ['x'], 'backend': loc},
+        {'name': 'step', 'stage': 0, 'exe': 'cat', 'refs': [{'kind': 'prodfile', 'prod': 0, 'path': 'out.txt', 'method': 'ref', 'spelling': 'rel'}],
+         'args': [0], 'backend': loc},
+        {'name': 'w', 'stage': 0, 'exe': 'ls', 'refs': [{'kind': 'proddir', 'prod': 0, 'path': '', 'method': 'copy', 'spelling': 'rel'}],
+         'args': ['-l'], 'backend': loc}])
+    vcopy = copy.deepcopy(fcopy)
+    vcopy['out']['0/out.txt'][0] = 'OUT+changed'
+    return [('F16c-abs', fabs, []), ('F16c-glue', fglue, []),
+            ('F16d', fcopy, [(vcopy, {'aspect': 'prodcontent', 'comp': 1, 'users': [1], 'folder_users': [2]})])]
+
+
+def run_resub(ctx, n):
+    """re.sub(r'\\b' + re.escape(ref) + r'\\b', replacement, text) alone against Memo.Model.resub"""
+    rng = ctx.rng
+    alpha = ['a', 'b', 'a', '/', ':', '.', ' ', '_', '-', '=', '1', 'Z']
+    cases = []
+    for _ in range(n):
+        ref = ''.join(rng.choice(alpha) for _ in range(rng.randint(1, 4)))
+        rp = ''.join(rng.choice(alpha + ['#']) for _ in range(rng.randint(0, 4)))
+        parts = []
+        for _ in range(rng.randint(0, 5)):
+            parts.append(ref if rng.random() < 0.5 else ''.join(rng.choice(alpha) for _ in range(rng.randint(0, 3))))
+        text = ''.join(parts)
+        out = re.sub(re.compile(r'\b' + re.escape(ref) + r'\b'), rp, text)
+        cases.append((ref, rp, text, out))
+        ctx.case(['resub', ref, rp, text], out != text)
+        ctx.count('resub_cases')
+        ctx.count('resub_%s' % ('replaced' if out != text else ('occurs_unreplaced' if ref in text else 'absent')))
+    bad = ctx.model_mismatches(HEADER, ['(%s, %s, %s, %s)' % tuple(cstr(x) for x in c) for c in cases], 'check_resub', chunk=500, name='resub')
+    for i in bad:
+        ctx.disagree({'resub': cases[i][:3]}, cases[i][3], '', 'C16 re.sub with word boundaries vs Memo.Model.resub')
 
 
 # ------------------------------------------------------------------ the traversal alone
@@ -743,6 +906,13 @@ def explore(ctx, families):
                 if not any(c.get('replicate') for c in w['comps']):
                     for i in range(len(w['comps'])):
                         entries.append((w, i, tag, obs[i]))
+                if not any(c.get('replicate') for c in w['comps']):
+                    raw = [canon_path(x['command']['arguments']) for x in json.loads(flowir_of(w))['components']]
+                    if raw != [o['oracle']['args'] for o in obs]:
+                        ctx.disagree({'world': w}, [o['oracle']['args'] for o in obs], raw,
+                                     'C16 arguments: the string the code starts from is not the one written in the description')
+                if boundary_world(w):
+                    ctx.count('boundary_worlds')
                 if malformed(obs):
                     ctx.disagree({'world': w}, obs, None, 'C16 info: implementation output not expressible in the model '
                                                           '(info dictionary shape / hash is not md5 of the traversal buffer)')
@@ -756,19 +926,25 @@ def explore(ctx, families):
         ntrav = 1500 if ctx.tier == 'quick' else 8000
         if families and not getattr(ctx, 'replaying', False):
             run_traversal(ctx, drv, ntrav)
+            run_resub(ctx, 800 if ctx.tier == 'quick' else 4000)
     finally:
         drv.close()
-    bad = ctx.model_mismatches(HEADER, [t[0] for t in terms], 'check_case', chunk=60)
-    for n, i in enumerate(bad):
-        _, w, obs = terms[i]
+    # blank-delimited worlds: the character-level model AND the token model; boundary worlds: the character-level model
+    plain = [t for t in terms if not boundary_world(t[1])]
+    bound = [t for t in terms if boundary_world(t[1])]
+    bad = [plain[i] for i in ctx.model_mismatches(HEADER, [t[0] for t in plain], 'check_case_both', chunk=60)]
+    bad += [bound[i] for i in ctx.model_mismatches(HEADER, [t[0] for t in bound], 'check_case_chars', chunk=60, name='boundary')]
+    for n, t in enumerate(bad):
+        _, w, obs = t
         m = ''
         if n < 2:
             comps, _ = model_comps(w)
             tbl = coq_case(w, obs)
-            m = ctx.model_eval(HEADER, 'let k := %s in (infos (tbl_md5 (fst (fst k))) false (snd (fst k)), '
-                                       'infos (tbl_md5 (fst (fst k))) true (snd (fst k)))' % tbl)[-3000:]
+            m = ctx.model_eval(HEADER, 'let k := %s in (infos_chars (tbl_md5 (fst (fst k))) false (snd (fst k)), '
+                                       'infos_chars (tbl_md5 (fst (fst k))) true (snd (fst k)), '
+                                       'infos (tbl_md5 (fst (fst k))) false (map fst (snd (fst k))))' % tbl)[-9000:]
         ctx.disagree({'world': w}, [{'strong': o['strong'], 'fuzzy': o['fuzzy']} for o in obs], m,
-                     'C16 info: memoization_info/_fuzzy, traversal buffer and hash vs Memo.Model.infos/serialise')
+                     'C16 info: memoization_info/_fuzzy, traversal buffer and hash vs Memo.Model.infos_chars/infos/serialise')
 
 
 def make_family(rng, tag, base, nvar):
@@ -801,11 +977,13 @@ def run(ctx):
     families = []
     for tag, w in corpus_worlds():
         families.append(make_family(rng, tag, w, 4 if tag != 'F16b-replicas' else 0))
+    families += corpus_families()
     nbase = 100 if ctx.tier == 'quick' else 400
     nvar = 5 if ctx.tier == 'quick' else 8
     for i in range(nbase):
         kw = rng.random() < 0.06
-        families.append(make_family(rng, 'kw' if kw else 'rand', gen_world(rng, kw), nvar))
+        bd = (not kw) and rng.random() < 0.07
+        families.append(make_family(rng, 'kw' if kw else ('boundary' if bd else 'rand'), gen_world(rng, kw, bd), nvar))
     for i in range(16 if ctx.tier == 'quick' else 60):
         families.append(make_family(rng, 'chain', chain_world(rng, rng.randint(1, 3)), nvar))
     explore(ctx, families)
